@@ -448,10 +448,12 @@ def enum_needs_rpki():
             for h in (1, 2, 3):
                 for d in (0, 1):
                     st = (1, 2, 0)[k % 3]; k += 1            # the validation state the condition names: Valid / Invalid / NotFound
-                    stmts = [(i, [[8, st]] if i == h else [], [2] if i == h else [], act(large=[0, [[7, i, 0]]])) for i in (1, 2, 3)]
+                    # the rpki condition is the first or the second condition of its statement, which is the first or the second of its policy
+                    rc = [[8, st]] if k % 2 else [[13, 1, 0], [8, st]]
+                    stmts = [(i, rc if i == h else [], [2] if i == h else [], act(large=[0, [[7, i, 0]]])) for i in (1, 2, 3)] + [(4, [], [], NOACT())]
                     others = [i for i in perm if i != h]
                     evals = [ev(n, a, d=d) for n, a in rpki_routes()]
-                    ops = setup([], stmts, [(i, [i]) for i in (1, 2, 3)], [])
+                    ops = setup([], stmts, [(i, ([4, i] if (i == h and (k // 2) % 2) else [i])) for i in (1, 2, 3)], [])
                     for names in calls: ops += [[7, 0, d, 1, names], [10]] + evals[:2]
                     ops += evals + [[8, d, [h], 0], [10]] + evals[:2] + [[7, 0, d, 1, [h]], [10]] + evals[:2] + \
                            [[7, 1, d, 1, others], [10]] + evals[:2] + [[7, 1, d, 2, others[:1] + [h]], [10]] + evals + [[8, d, others, 0], [10]] + evals[:2]
@@ -469,7 +471,8 @@ def enum_global_rpki():
             for h in (1, 2, 3):
                 for mode in ('import', 'export', 'peer'):
                     st = (1, 2, 0)[k % 3]; k += 1
-                    stmts = [[3, i, [[8, st]] if i == h else [], [2] if i == h else [], act(large=[0, [[7, i, 0]]])] for i in (1, 2, 3)]
+                    rc = [[8, st]] if k % 2 else [[13, 1, 0], [8, st]]
+                    stmts = [[3, i, rc if i == h else [], [2] if i == h else [], act(large=[0, [[7, i, 0]]])] for i in (1, 2, 3)] + [[3, 4, [], [], NOACT()]]
                     others = [i for i in perm if i != h]
                     if mode == 'import':
                         evals = [[26, SRC_E, n, a, [PEER]] for n, a in rpki_routes()]
@@ -486,7 +489,7 @@ def enum_global_rpki():
                         add = lambda names, dflt=1: [21, 4, 1, dflt, names]
                         rm = lambda names: [22, 4, 1, names, 0]
                         setp = lambda names: [22, 4, 1, [], 1]                              # a peer override is replaced by clearing it and adding again
-                    ops = stmts + [[5, i, [i]] for i in (1, 2, 3)] + [[20, 4, []], [25, RPKI_VRPS]]
+                    ops = stmts + [[5, i, ([4, i] if (i == h and (k // 2) % 2) else [i])] for i in (1, 2, 3)] + [[20, 4, []], [25, RPKI_VRPS]]
                     for names in calls: ops += [add(names), [24]] + evals[:2]
                     ops += evals + [rm([h]), [24]] + evals[:2] + [add([h]), [24]] + evals[:2] + [setp(others), [24]] + evals[:2]
                     if mode == 'peer': ops += [add(others), add([h]), [24]] + evals
